@@ -2,7 +2,7 @@
 //! gradient of the input transform.
 //! Usage: c05 <tlc-programs-file|-> <quick|thorough> <out.ndjson>
 use fidget_core::{
-    eval::{Function, MathFunction},
+    eval::Function,
     shape::Shape,
     types::Grad,
     var::Var,
